@@ -1,6 +1,6 @@
 import logging as log
 
-from vivarium.library.dict_utils import deep_merge_combine_lists
+from vivarium.library.dict_utils import deep_merge, deep_merge_combine_lists
 from vivarium.core.process import Process
 
 
@@ -68,6 +68,8 @@ class TimelineProcess(Process):
                     '_value': value,
                     '_updater': 'set'}
                 nested_set(update_at_path, path_to_variable, update_value)
-                update = deep_merge_combine_lists(update, update_at_path)
+                # a later event replaces the value an earlier event of
+                # this tick set (list values must not be concatenated)
+                update = deep_merge(update, update_at_path)
             log.info('timeline update: {}'.format(update))
         return update
